@@ -1160,7 +1160,7 @@ func genWorldAndCalls(g *hx.Gen, mode string) {
 
 func gen(g *hx.Gen) {
 	genNext(g, g.Count(10000, 1000000))
-	ngc := g.Count(320, 20000)
+	ngc := g.Count(320, 12000)
 	for i := 0; i < ngc; i++ {
 		switch i % 4 {
 		case 0, 1:
